@@ -663,4 +663,132 @@ theorem runCalls_fresh (P : Prog) (hP : SchemaOK P) (svc : Service) : ∀ (specs
     have ih := runCalls_fresh P hP svc r (nextSeq seq) (fun x hx => h x (by simp [hx]))
     simp only [runCalls, hc, ih, obsAlone, List.length_cons, seqAfter]
 
+
+/-! ### sufficient conditions for `AnswerOK` in terms of the handler's value -/
+
+def IdsOK (defs : List FieldDef) : Prop := ∀ f ∈ defs, -32768 ≤ f.id ∧ f.id < 32768
+
+theorem isSet_nil (f : FieldDef) (h : f.dflt = none) : isSet f .nil = false := by
+  rw [isSet_nodflt f _ h]; simp [goEq]
+
+theorem wt_head_nil (S : List StructDef) (f : FieldDef) (fs : List FieldDef) (vs : List GoVal)
+    (hf : f.req = .optional ∧ f.dflt = none) (hid : -32768 ≤ f.id ∧ f.id < 32768) (rest : WTFields S fs vs) :
+    WTFields S (f :: fs) (.nil :: vs) := by
+  unfold WTFields
+  exact ⟨fun _ => Or.inl ⟨rfl, isSet_nil f hf.2⟩, fun hn => absurd hf.1 hn, hid, rest⟩
+
+theorem wt_head_val (S : List StructDef) (f : FieldDef) (fs : List FieldDef) (v : GoVal) (vs : List GoVal)
+    (hf : f.req = .optional ∧ f.dflt = none) (hid : -32768 ≤ f.id ∧ f.id < 32768) (hwt : WT S f.ty v)
+    (rest : WTFields S fs vs) : WTFields S (f :: fs) (v :: vs) := by
+  unfold WTFields
+  exact ⟨fun _ => Or.inr hwt, fun hn => absurd hf.1 hn, hid, rest⟩
+
+theorem tw_head_nil (P : Prog) (f : FieldDef) (fs : List FieldDef) (vs : List GoVal)
+    (hf : f.req = .optional ∧ f.dflt = none) : toWFields P (f :: fs) (.nil :: vs) = toWFields P fs vs := by
+  simp [toWFields, hf.1, isSet_nil f hf.2]
+
+theorem tw_head_val (P : Prog) (f : FieldDef) (fs : List FieldDef) (v : GoVal) (vs : List GoVal) (w : WVal)
+    (ws : List (Nat × WVal)) (hw : toW P f.ty v = .ok w) (h : toWFields P fs vs = .ok ws) :
+    ∃ ws', toWFields P (f :: fs) (v :: vs) = .ok ws' := by
+  simp only [toWFields]
+  split
+  · exact ⟨ws, h⟩
+  · exact ⟨(pat 16 f.id, w) :: ws, by simp [hw, h, bind]⟩
+
+theorem wtFields_nils (S : List StructDef) : ∀ (defs : List FieldDef), AllOpt defs → IdsOK defs →
+    WTFields S defs (nils defs.length)
+  | [], _, _ => by simp [nils, WTFields]
+  | f :: fs, h, hi => by
+    simp only [List.length_cons, nils, List.replicate_succ]
+    exact wt_head_nil S f fs _ (h f (by simp)) (hi f (by simp))
+      (wtFields_nils S fs (fun g hg => h g (by simp [hg])) (fun g hg => hi g (by simp [hg])))
+
+/-- one field (the i-th) holds a well-typed writable value, the others nothing -/
+theorem single_ok (P : Prog) : ∀ (defs : List FieldDef) (i : Nat) (v : GoVal), AllOpt defs → IdsOK defs → i < defs.length →
+    (∀ f, (defs.drop i).head? = some f → WT P.structs f.ty v ∧ ∃ w, toW P f.ty v = .ok w) →
+    WTFields P.structs defs ((nils defs.length).set i v) ∧ ∃ ws, toWFields P defs ((nils defs.length).set i v) = .ok ws
+  | [], i, _, _, _, hi, _ => by simp at hi
+  | f :: fs, 0, v, h, hids, _, hv => by
+    obtain ⟨hwt, w, hw⟩ := hv f rfl
+    have hot : AllOpt fs := fun g hg => h g (by simp [hg])
+    have hit : IdsOK fs := fun g hg => hids g (by simp [hg])
+    simp only [List.length_cons, nils, List.replicate_succ, List.set_cons_zero]
+    exact ⟨wt_head_val _ f fs v _ (h f (by simp)) (hids f (by simp)) hwt (wtFields_nils _ fs hot hit),
+      tw_head_val P f fs v _ w [] hw (toWFields_nils P fs hot)⟩
+  | f :: fs, i + 1, v, h, hids, hi, hv => by
+    have hot : AllOpt fs := fun g hg => h g (by simp [hg])
+    have hit : IdsOK fs := fun g hg => hids g (by simp [hg])
+    obtain ⟨h1, ws, h2⟩ := single_ok P fs i v hot hit (by simpa using hi) (fun g hg => hv g (by simpa using hg))
+    simp only [List.length_cons, nils, List.replicate_succ, List.set_cons_succ]
+    simp only [nils] at h1 h2
+    exact ⟨wt_head_nil _ f fs _ (h f (by simp)) (hids f (by simp)) h1, ws, by rw [tw_head_nil P f fs _ (h f (by simp))]; exact h2⟩
+
+/-- a handler error whose text fits a string is always answerable -/
+theorem answerOK_err (P : Prog) (m : Method) (msg : Bytes)
+    (h : (asc "Internal error processing " ++ m.name ++ asc ": " ++ msg).length < maxSize) : AnswerOK P m (.err msg) := by
+  intro rd _
+  simpa [resultOf] using h
+
+/-- returning nothing / nil, or a well-typed value that `Write` accepts, is answerable -/
+theorem answerOK_ok (P : Prog) (m : Method) (hm : MethodOK P m) (ho : m.oneway = false) (v : GoVal)
+    (hids : ∀ rd, P.structs[m.result]? = some rd → IdsOK rd.fields)
+    (hv : m.void = false → v = .nil ∨ ∀ rd sf, P.structs[m.result]? = some rd → rd.fields.head? = some sf →
+      WT P.structs sf.ty v ∧ ∃ w, toW P sf.ty v = .ok w) :
+    AnswerOK P m (.ok v) := by
+  intro rd hrd
+  obtain ⟨rd', hrd', _, hl, hao, _⟩ := hm.result ho
+  rw [hrd] at hrd'; cases hrd'
+  have hi := hids rd hrd
+  simp only [resultOf]
+  cases hvoid : m.void
+  · simp only [hvoid, Bool.false_eq_true, if_false] at hl ⊢
+    match hf : rd.fields with
+    | [] => simp [hf] at hl; omega
+    | sf :: tf =>
+      have htl : tf.length = m.nthrows := by simp [hf] at hl; omega
+      have hsf := hao sf (by simp [hf])
+      have hot : AllOpt tf := fun g hg => hao g (by simp [hf, hg])
+      have hit : IdsOK tf := fun g hg => hi g (by simp [hf, hg])
+      have hn := toWFields_nils P tf hot
+      rw [← htl]
+      simp only [List.singleton_append]
+      rcases hv hvoid with hnil | hwt
+      · subst hnil
+        exact ⟨wt_head_nil _ sf tf _ hsf (hi sf (by simp [hf])) (wtFields_nils _ tf hot hit),
+          [], by rw [tw_head_nil P sf tf _ hsf]; exact hn⟩
+      · obtain ⟨hw1, w, hw2⟩ := hwt rd sf hrd (by simp [hf])
+        exact ⟨wt_head_val _ sf tf v _ hsf (hi sf (by simp [hf])) hw1 (wtFields_nils _ tf hot hit),
+          tw_head_val P sf tf v _ w [] hw2 hn⟩
+  · simp only [hvoid, if_true, Nat.zero_add, List.nil_append] at hl ⊢
+    rw [← hl]
+    exact ⟨wtFields_nils _ rd.fields hao hi, [], toWFields_nils P rd.fields hao⟩
+
+/-- returning the i-th declared exception, a well-typed struct that `Write` accepts, is answerable -/
+theorem answerOK_exc (P : Prog) (m : Method) (hm : MethodOK P m) (ho : m.oneway = false) (i : Nat) (v : GoVal)
+    (hi : i < m.nthrows) (hids : ∀ rd, P.structs[m.result]? = some rd → IdsOK rd.fields)
+    (hv : ∀ f, ((throwDefs P m).drop i).head? = some f → WT P.structs f.ty v ∧ ∃ w, toW P f.ty v = .ok w) :
+    AnswerOK P m (.exc i v) := by
+  intro rd hrd
+  obtain ⟨rd', hrd', _, hl, hao, _⟩ := hm.result ho
+  rw [hrd] at hrd'; cases hrd'
+  have hI := hids rd hrd
+  have htd : throwDefs P m = rd.fields.drop (if m.void then 0 else 1) := by simp [throwDefs, Prog.struct?, hrd]
+  simp only [resultOf, hi, if_true]
+  cases hvoid : m.void
+  · simp only [hvoid, Bool.false_eq_true, if_false] at hl htd ⊢
+    match hf : rd.fields with
+    | [] => simp [hf] at hl; omega
+    | sf :: tf =>
+      have htl : tf.length = m.nthrows := by simp [hf] at hl; omega
+      have hsf := hao sf (by simp [hf])
+      have hot : AllOpt tf := fun g hg => hao g (by simp [hf, hg])
+      have hit : IdsOK tf := fun g hg => hI g (by simp [hf, hg])
+      rw [← htl] at hi ⊢
+      obtain ⟨h1, ws, h2⟩ := single_ok P tf i v hot hit hi (fun g hg => hv g (by rw [htd, hf]; simpa using hg))
+      simp only [List.singleton_append]
+      exact ⟨wt_head_nil _ sf tf _ hsf (hI sf (by simp [hf])) h1, ws, by rw [tw_head_nil P sf tf _ hsf]; exact h2⟩
+  · simp only [hvoid, if_true, Nat.zero_add, List.drop_zero, List.nil_append] at hl htd ⊢
+    rw [← hl] at hi ⊢
+    exact single_ok P rd.fields i v hao hI hi (fun g hg => hv g (by rw [htd]; exact hg))
+
 end Gen.Rpc
